@@ -520,3 +520,6 @@ def check(ctx):
     ctx.rule("R15", "no update is thrown away unread: on the awaitable connection every consumer polls ONE receive queue, so only the consumers (the request waiter, the long-lived consume loops, the discard consumer) and their private helpers may take datagrams off it - a request engine that empties the queue when one of its attempts times out discards the partial update that was waiting for its handler: its changes are never applied and it is never acknowledged (C07.R2's who-may-pop borrowed)")
     from .c07 import who_may_remove as _wmr5
     _wmr5(ctx.borrowed("R15", "C07"), repo, "R2")
+    ctx.rule("R16", "an update is taken by ITS handler: on the awaitable connection the refresh waiter, the other request waiters and the long-lived partial-update consumer poll one queue, and only disjoint acceptance keeps whoever wakes first from mattering - a refresh handler that claims every `STAT...` verb pops an unsolicited STATP while a refresh is in flight, reads it as a segment and drops it: the change is never applied and never acknowledged (C07.R10 one taker per datagram borrowed)")
+    from .c07 import one_taker_per_datagram as _otpd5
+    _otpd5(ctx.borrowed("R16", "C07"), repo, "R10")
